@@ -128,6 +128,11 @@ func (d *c14Drv) concretise(kinds []string, defKeys []string) []tline {
 		case "REQ":
 			ln.A = methods[d.r.Intn(len(methods))]
 			ln.B = fmt.Sprintf("http://h%d.example:8%03d/p/%d?q=%d", i, d.r.Intn(1000), i, d.r.Intn(10))
+			if d.r.Intn(3) == 0 { // the URL is taken as written: no re-serialisation
+				ln.B = []string{"HTTP://H%d.Example/Up", "http://h%d.example/a|b^c", "http://h%d.example/caf\u00e9/\u65e5", "http://h%d.example/page#frag", "https://u:p@h%d.example/x?a=b&c=%%20d#f",
+					"http://[::1]:8080/%d", "http://h%d.example/%%7Cenc", "http://h%d.example/{x}/\"q\"", "http://h%d.example"}[d.r.Intn(9)]
+				ln.B = fmt.Sprintf(ln.B, i)
+			}
 			ln.text = ln.A + " " + ln.B
 			ownKeys = nil
 		case "HDR":
